@@ -134,7 +134,7 @@ def meta_batch_oracle(closure_maxn):
 
 def repeat_oracle(line, out):
     f = fields(out)
-    vals = [f.get(k) for k in ("first", "cached", "reclassified", "fresh")]
+    vals = [f.get(k) for k in ("first", "cached", "after-readonly-queries", "reclassified", "fresh")]
     if out.startswith("!") or None in vals:
         return f"repeat failed: {out[:160]}"
     if any(v.startswith("!") for v in vals):
